@@ -397,7 +397,8 @@ class Lib:
     def call_closure(self, ex, st, clo, args, kwargs, node):
         fn = clo.node
         params = [a.arg for a in fn.args.args]
-        bind = dict(clo.defaults)
+        bind = {k: v for k, v in getattr(clo, "env", {}).items() if k not in st.locals}
+        bind.update(clo.defaults)
         for p, a in zip(params, args):
             if isinstance(a, Opaque) and a.kind == "csvreader":
                 a = a.get("rows")           # an iterator over the remaining rows is passed where a sequence of rows is expected
@@ -641,6 +642,8 @@ class Lib:
         da, db = dt(a), dt(b)
         if da is not None and db is not None:
             return da == db
+        if any(isinstance(x, Opaque) and x.kind == "yamldoc" for x in (a, b)):
+            return z3.Bool(uid("yamltest"))          # a YAML scalar compared with something: may go either way
         raise EngineError("equality on %r / %r outside the subset" % (a, b))
 
     def index_opaque(self, ex, st, base, node):
